@@ -461,3 +461,72 @@ func (s *Snapshot) DiffIgnoring(o *Snapshot, ignore ...string) string {
 	}
 	return mask(s).Diff(mask(o))
 }
+
+// EquivModuloIDs compares two snapshots row by row (rowid order) after renaming
+// UUIDs in order of first appearance; times are compared relative to each
+// snapshot's own TakenL with a tolerance.  Returns "" if equivalent.
+func (s *Snapshot) EquivModuloIDs(o *Snapshot, tol time.Duration) string {
+	rs, ro := map[string]string{}, map[string]string{}
+	ren := func(m map[string]string, v any) (string, bool) {
+		var k string
+		switch x := v.(type) {
+		case []byte:
+			k = string(x)
+		case string:
+			k = x
+		default:
+			return "", false
+		}
+		if _, err := uuid.Parse(k); err != nil {
+			return k, true
+		}
+		if n, ok := m[k]; ok {
+			return n, true
+		}
+		n := fmt.Sprintf("#%d", len(m))
+		m[k] = n
+		return n, true
+	}
+	for _, t := range Tables {
+		a, b := s.Rows[t], o.Rows[t]
+		if len(a) != len(b) {
+			return fmt.Sprintf("%s: %d rows vs %d rows", t, len(a), len(b))
+		}
+		for i := range a {
+			for c := range a[i] {
+				va, vb := a[i][c], b[i][c]
+				ta, isTa := va.(time.Time)
+				tb, isTb := vb.(time.Time)
+				if isTa || isTb {
+					if isTa != isTb {
+						return fmt.Sprintf("%s row %d col %s: %v vs %v", t, i, s.Cols[t][c], va, vb)
+					}
+					d := ta.Sub(s.TakenL) - tb.Sub(o.TakenL)
+					if d < -tol || d > tol {
+						return fmt.Sprintf("%s row %d col %s: %v vs %v (relative to the end of the operation)", t, i, s.Cols[t][c], ta.Sub(s.TakenL), tb.Sub(o.TakenL))
+					}
+					continue
+				}
+				sa, oka := ren(rs, va)
+				sb, okb := ren(ro, vb)
+				if oka && okb {
+					if strings.Contains(sa, "-") && len(sa) > 30 || strings.HasPrefix(sa, "[") {
+						// JSON list of uuids (snapshot acked ids): compare lengths only
+						if len(sa) != len(sb) {
+							return fmt.Sprintf("%s row %d col %s: %v vs %v", t, i, s.Cols[t][c], sa, sb)
+						}
+						continue
+					}
+					if sa != sb {
+						return fmt.Sprintf("%s row %d col %s: %v vs %v", t, i, s.Cols[t][c], sa, sb)
+					}
+					continue
+				}
+				if fmt.Sprint(va) != fmt.Sprint(vb) {
+					return fmt.Sprintf("%s row %d col %s: %v vs %v", t, i, s.Cols[t][c], va, vb)
+				}
+			}
+		}
+	}
+	return ""
+}
